@@ -205,25 +205,30 @@ def check_part_order(run: Run) -> None:
 EMIT_FUNCS = {"emit_assignment", "emit_block", "emit_section", "emit_comment", "emit_value", "_emit_multiline_list", "_emit_leading_comments"}
 
 
-def check_indent(run: Run) -> None:
-    run.rule("R01.4", "indent arithmetic in the emitter: inside emit_block/emit_section every child is emitted at `indent + 1`, own-level helpers at `indent`, top level at 0; indentation strings are exactly two spaces times an integer level", 14)
+def check_indent(run: Run, rule: str = "R01.4") -> None:
+    run.rule(rule, "indent arithmetic in the emitter: inside emit_block/emit_section every child is emitted at `indent + 1`, own-level helpers at `indent`, top level at 0; indentation strings are exactly two spaces times an integer level", 14)
     em = run.project.mod("core.emitter")
-    for fname in ("emit_block", "emit_section", "emit_assignment", "_emit_multiline_list", "emit", "emit_comment", "_emit_leading_comments", "emit_value", "emit_meta"):
+    callers = [q for q, f in em.functions.items() if "." not in q and any(isinstance(c, ast.Call) and isinstance(c.func, ast.Name) and c.func.id in EMIT_FUNCS for c in walk_no_nested(f.node))]
+    for fname in sorted(set(callers) | {"emit_block", "emit_section", "emit_assignment", "_emit_multiline_list", "emit", "emit_meta"}):
         if not em.has_func(fname):
             continue
         fi = em.func(fname)
+        pads = {}
+        for a in walk_no_nested(fi.node):
+            if isinstance(a, ast.Assign) and len(a.targets) == 1 and isinstance(a.targets[0], ast.Name) and isinstance(a.value, ast.BinOp) and isinstance(a.value.op, ast.Mult) and isinstance(a.value.left, ast.Constant) and a.value.left.value == "  ":
+                pads[a.targets[0].id] = _text(a.value.right).strip("()")
         params = [a.arg for a in fi.node.args.args]  # type: ignore[attr-defined]
         has_indent = "indent" in params
         for n in walk_no_nested(fi.node):
             # indentation strings
             if isinstance(n, ast.BinOp) and isinstance(n.op, ast.Mult) and isinstance(n.left, ast.Constant) and isinstance(n.left.value, str) and n.left.value.strip() == "" and n.left.value:
                 ok = n.left.value == "  "
-                run.instance("R01.4", em.loc(n), f"{fname}: indentation unit {n.left.value!r} * {_text(n.right)}", ok=ok)
+                run.instance(rule, em.loc(n), f"{fname}: indentation unit {n.left.value!r} * {_text(n.right)}", ok=ok)
                 if not ok:
-                    run.violation("R01.4", em, fname, f"indent unit {n.left.value!r}", f"indentation is built from {len(n.left.value)} space(s) per level instead of two: nested blocks are re-read at a different depth")
+                    run.violation(rule, em, fname, f"indent unit {n.left.value!r}", f"indentation is built from {len(n.left.value)} space(s) per level instead of two: nested blocks are re-read at a different depth")
                 lvl = _text(n.right)
                 if has_indent and lvl not in ("indent", "(indent + 1)", "indent + 1", "depth", "level"):
-                    run.violation("R01.4", em, fname, f"indent level {lvl}", f"indentation string uses level `{lvl}`; only `indent` (own line) and `indent + 1` (child line) are consistent with the reader's block structure")
+                    run.violation(rule, em, fname, f"indent level {lvl}", f"indentation string uses level `{lvl}`; only `indent` (own line) and `indent + 1` (child line) are consistent with the reader's block structure")
             if not (isinstance(n, ast.Call) and isinstance(n.func, ast.Name) and n.func.id in EMIT_FUNCS):
                 continue
             callee = em.func(n.func.id)
@@ -234,6 +239,23 @@ def check_indent(run: Run) -> None:
             arg = n.args[idx] if idx < len(n.args) else next((k.value for k in n.keywords if k.arg == "indent"), None)
             a = _text(arg) if arg is not None else "<default 0>"
             child_call = _is_child_arg(n)
+            if not has_indent and fname != "emit" and arg is not None:
+                # level-parameterised emitters: the line that receives the text starts with a pad variable `"  " * E`; the value
+                # must be laid out for that same E
+                st0 = n
+                while not isinstance(st0, ast.stmt):
+                    st0 = getattr(st0, "_parent")
+                var0 = st0.targets[0].id if isinstance(st0, ast.Assign) and isinstance(st0.targets[0], ast.Name) else None
+                pad_levels = []
+                for js in walk_no_nested(fi.node):
+                    if isinstance(js, ast.JoinedStr) and var0 and any(isinstance(v, ast.FormattedValue) and isinstance(v.value, ast.Name) and v.value.id == var0 for v in js.values) and isinstance(js.values[0], ast.FormattedValue) and isinstance(js.values[0].value, ast.Name) and js.values[0].value.id in pads:
+                        pad_levels.append(pads[js.values[0].value.id])
+                if pad_levels:
+                    ok = all(pl == a.strip("()") for pl in pad_levels)
+                    run.instance(rule, em.loc(n), f"{fname}: {n.func.id}(indent={a}) written behind a pad of level {pad_levels}", ok=ok)
+                    if not ok:
+                        run.violation(rule, em, fname, f"{n.func.id}(indent={a}) vs pad level {pad_levels[0]}", f"{fname} lays out a value for depth `{a}` but writes it on a line padded for depth `{pad_levels[0]}`: continuation lines of a multi-line value are indented for the wrong level (not two spaces per level)")
+                    continue
             if not has_indent and isinstance(arg, ast.Constant) and isinstance(arg.value, int) and fname != "emit":
                 # constant-depth emitters (emit_meta): the literal prefix of the line that receives the text has 2 * k spaces
                 st = n
@@ -249,9 +271,9 @@ def check_indent(run: Run) -> None:
                             lead = js.values[0].value
                             widths.append(len(lead) - len(lead.lstrip(" ")))
                 ok = bool(widths) and all(w == 2 * arg.value for w in widths)
-                run.instance("R01.4", em.loc(n), f"{fname}: {n.func.id}(indent={arg.value}) written behind {widths} leading spaces", ok=ok)
+                run.instance(rule, em.loc(n), f"{fname}: {n.func.id}(indent={arg.value}) written behind {widths} leading spaces", ok=ok)
                 if not ok:
-                    run.violation("R01.4", em, fname, f"{n.func.id}(indent={arg.value}) vs literal prefix", f"{fname} lays out a value for depth {arg.value} but writes it behind {widths} leading spaces (expected {2 * arg.value}): continuation lines of a multi-line value and the key line disagree about the nesting depth")
+                    run.violation(rule, em, fname, f"{n.func.id}(indent={arg.value}) vs literal prefix", f"{fname} lays out a value for depth {arg.value} but writes it behind {widths} leading spaces (expected {2 * arg.value}): continuation lines of a multi-line value and the key line disagree about the nesting depth")
                 continue
             if fname == "emit":
                 want = {"0", "<default 0>"}
@@ -262,9 +284,9 @@ def check_indent(run: Run) -> None:
             else:
                 want = {"indent"}
             ok = a in want
-            run.instance("R01.4", em.loc(n), f"{fname}: {n.func.id}(..., indent={a})" + (" for a child" if child_call else ""), ok=ok)
+            run.instance(rule, em.loc(n), f"{fname}: {n.func.id}(..., indent={a})" + (" for a child" if child_call else ""), ok=ok)
             if not ok:
-                run.violation("R01.4", em, fname, f"{n.func.id}(indent={a})", f"{fname} emits {'a child' if child_call else 'its own-level part'} through {n.func.id} at indent `{a}` (expected {sorted(want)}): the emitted nesting differs from the document's, so re-reading changes the structure")
+                run.violation(rule, em, fname, f"{n.func.id}(indent={a})", f"{fname} emits {'a child' if child_call else 'its own-level part'} through {n.func.id} at indent `{a}` (expected {sorted(want)}): the emitted nesting differs from the document's, so re-reading changes the structure")
 
 
 def _is_child_arg(call: ast.Call) -> bool:
